@@ -54,6 +54,10 @@ func mix(a, b uint64) uint64 {
 }
 
 // NowNanos is the simulated clock: it advances by a seed-dependent delta on every read.
+// (Not instrumented for the race detector: under the scheduler engine it is read by the worker
+// goroutines, of which exactly one runs at a time.)
+//
+//go:norace
 func NowNanos() int64 {
 	ClockReads++
 	clock += 1 + int64(mix(seed, uint64(ClockReads))%1000)
